@@ -282,7 +282,7 @@ func lastLines(s string, n int) string {
 }
 
 // runChild runs one child over [from, from+count*stride) and restarts it after crashes.
-func runChild(scenario string, seed int64, tier string, from, stride, count int, budget time.Duration, extra []string, res *childResult) {
+func runChild(scenario string, seed int64, tier string, from, stride, count int, budget time.Duration, extra []string, procs int, res *childResult) {
 	deadline := time.Now().Add(budget)
 	for count > 0 && time.Now().Before(deadline) {
 		left := time.Until(deadline)
@@ -292,7 +292,10 @@ func runChild(scenario string, seed int64, tier string, from, stride, count int,
 			"-sim.budget=" + left.String()}
 		args = append(args, extra...)
 		cmd := exec.Command(simBin, args...)
-		cmd.Env = append(os.Environ(), "GOMAXPROCS=1")
+		if procs < 1 {
+			procs = 1
+		}
+		cmd.Env = append(os.Environ(), "GOMAXPROCS="+strconv.Itoa(procs))
 		var stderr bytes.Buffer
 		cmd.Stderr = &stderr
 		stdout, _ := cmd.StdoutPipe()
@@ -376,6 +379,9 @@ func replayOnce(p *payload, reps int, keepLog bool) (sigs []string, last *payloa
 			if json.Unmarshal([]byte(line[4:]), &q) == nil {
 				s := ""
 				if q.Violation != nil {
+					if p.Violation != nil && p.Violation.Property == "C18" {
+						promoteC18(&q)
+					}
 					s = q.Violation.Signature
 				}
 				sigs = append(sigs, s)
@@ -648,16 +654,31 @@ func cmdCheck(prop string, args []string) {
 			budget = time.Duration(*budgetS) * time.Second
 		}
 		a := newAgg()
-		perScen[sn.Name] = a
-		results := make([]*childResult, *workers)
+		key := sn.Name
+		if sn.Procs > 1 {
+			key = fmt.Sprintf("%s (GOMAXPROCS=%d, real parallelism)", sn.Name, sn.Procs)
+		}
+		perScen[key] = a
+		nw := *workers
+		if sn.Procs > 1 {
+			nw = *workers / sn.Procs
+			if nw < 1 {
+				nw = 1
+			}
+		}
+		results := make([]*childResult, nw)
 		var wg sync.WaitGroup
-		for w := 0; w < *workers; w++ {
+		for w := 0; w < nw; w++ {
 			results[w] = &childResult{}
 			wg.Add(1)
 			go func(w int) {
 				defer wg.Done()
 				extra := append([]string{"-sim.trace=2"}, sn.Extra...)
-				runChild(sn.Name, *seed, *tier, w, *workers, 1<<30, budget, extra, results[w])
+				pseed := *seed
+				if sn.Procs > 1 {
+					pseed += 7777 // a different block of seeds for the parallel pass
+				}
+				runChild(sn.Name, pseed, *tier, w, nw, 1<<30, budget, extra, sn.Procs, results[w])
 			}(w)
 		}
 		wg.Wait()
@@ -704,6 +725,12 @@ func cmdCheck(prop string, args []string) {
 		g.ex = append(g.ex, p)
 	}
 	for _, p := range vios {
+		// a response that does not reach the caller intact on a connection that
+		// compresses responses is also a C18 matter ("what the peer decodes is
+		// byte-identical to what was encoded"): the C18 check counts it
+		if prop == "C18" {
+			promoteC18(p)
+		}
 		switch p.Violation.Property {
 		case "HARNESS", "BUBBLE":
 			infra = append(infra, fmt.Sprintf("%s run %d: %s: %s", p.Scenario, p.Index, p.Violation.Signature, firstLine(p.Violation.Message)))
@@ -1067,4 +1094,18 @@ func busySite(stacks string) string {
 		}
 	}
 	return "?"
+}
+
+// promoteC18: a response that does not reach the caller intact (a C04 verdict of scenario
+// wire) on a connection that compresses responses is also a C18 matter.
+func promoteC18(p *payload) {
+	if p.Scenario != "wire" || p.Violation == nil || p.Violation.Property != "C04" || p.Cfg == nil {
+		return
+	}
+	comp, _ := p.Cfg["compressor"].(string)
+	rc, _ := p.Cfg["respCompress"].(float64)
+	if comp != "" && rc != 0 {
+		p.Violation.Property = "C18"
+		p.Violation.Signature = "C18/compressed-response-not-intact:" + strings.TrimPrefix(p.Violation.Signature, "C04/")
+	}
 }
